@@ -425,3 +425,131 @@ Module Arr.
         apply split_root_err in S. subst err. discriminate.
   Qed.
 End Arr.
+
+(* ====================================================================== *)
+(* 3. maps (element level)                                                *)
+(* ====================================================================== *)
+
+Module Mp.
+  Import MapElems MapElemsInv MapElems_proofs ErrSpec.MapHist.
+  Local Open Scope N_scope.
+
+  Section elems.
+    Variable dg : N -> nat -> N.
+    Variable levels : nat.
+    Variable max_inline_elem limit : N.
+
+    Local Notation m_step := (m_step dg levels max_inline_elem limit).
+    Local Notation mwf := (mwf dg levels).
+    Local Notation m_run_full := (m_run_full dg levels max_inline_elem limit).
+    Local Notation m_filter := (m_filter dg levels max_inline_elem limit).
+
+    (* every error path of the map model returns the input state (root elements, count, allocator)
+       and issues no storage call *)
+    Lemma map_no_trace s o e :
+      snd (fst (m_step s o)) = RErr e -> fst (fst (m_step s o)) = s /\ snd (m_step s o) = [].
+    Proof.
+      destruct o as [k v|k|k|k| | | |]; cbn [MapElems.m_step].
+      - destruct (set_elems _ _ _ _ _ _ _ _ _ _) as [err|[[[g' prev] a'] evs]]; cbn; [auto|discriminate].
+      - destruct (get_elems _ _ _ _ _ _) as [err|[k0 v]]; cbn; [auto|discriminate].
+      - destruct (get_elems _ _ _ _ _ _) as [[]|]; cbn; first [auto|discriminate].
+      - destruct (remove_elems _ _ _ _ _ _) as [err|[[g' [k0 v0]] evs]]; cbn; [auto|discriminate].
+      - cbn. discriminate.
+      - cbn. discriminate.
+      - cbn. discriminate.
+      - destruct (pop_list _). cbn. discriminate.
+    Qed.
+
+    (* answers of the structure = answers of the dictionary it represents *)
+    Lemma out_is_dict s o : (1 <= levels)%nat -> mwf s ->
+      snd (fst (m_step s o)) = snd (d_step dg levels limit (to_list (m_root s)) o).
+    Proof.
+      intros Hlv Hs. destruct (m_step_refines_all dg levels max_inline_elem limit s o Hlv Hs) as [E _].
+      now rewrite E.
+    Qed.
+
+    (* on a well-formed map: Get and Remove are refused exactly for absent keys, with KeyNotFound;
+       Has never fails; Set is refused only with the collision-limit error, only for absent keys,
+       exactly when the dictionary-level criterion [refused] holds *)
+    Lemma map_rejects_exactly s k : (1 <= levels)%nat -> mwf s ->
+      let d := to_list (m_root s) in
+      (d_get d k = None <-> snd (fst (m_step s (OGet k))) = RErr EKeyNotFound) /\
+      (d_get d k = None <-> snd (fst (m_step s (ORemove k))) = RErr EKeyNotFound) /\
+      (snd (fst (m_step s (OHas k))) = RBool (match d_get d k with Some _ => true | None => false end)) /\
+      (forall e, snd (fst (m_step s (OGet k))) = RErr e -> e = EKeyNotFound) /\
+      (forall e, snd (fst (m_step s (ORemove k))) = RErr e -> e = EKeyNotFound).
+    Proof.
+      intros Hlv Hs d. rewrite !out_is_dict by assumption. fold d. cbn [d_step].
+      destruct (d_get d k) as [p|]; cbn [snd]; repeat split; intros; try discriminate; try congruence.
+    Qed.
+
+    Lemma set_rejects_exactly s k v : (1 <= levels)%nat -> mwf s ->
+      let d := to_list (m_root s) in
+      (refused dg levels limit d (kid k) = true <-> snd (fst (m_step s (OSet k v))) = RErr ECollisionLimit) /\
+      (forall e, snd (fst (m_step s (OSet k v))) = RErr e -> e = ECollisionLimit /\ d_get d (kid k) = None).
+    Proof.
+      intros Hlv Hs d. rewrite !out_is_dict by assumption. fold d. cbn [d_step].
+      destruct (refused dg levels limit d (kid k)) eqn:R; cbn [snd]; split; try (split; congruence).
+      - intros e H. split; [congruence|]. unfold refused in R. destruct (d_get d (kid k)); [discriminate|reflexivity].
+    Qed.
+
+    (* hence on well-formed maps every error is an argument error *)
+    Lemma map_errors_are_argument_errors s o e : (1 <= levels)%nat -> mwf s ->
+      snd (fst (m_step s o)) = RErr e -> merr_is_argument e = true.
+    Proof.
+      intros Hlv Hs. rewrite out_is_dict by assumption.
+      destruct o as [k v|k|k|k| | | |]; cbn [d_step].
+      - destruct (refused _ _ _ _ _); cbn; intros H; [injection H as <-; reflexivity|discriminate].
+      - destruct (d_get _ _); cbn; intros H; [discriminate|injection H as <-; reflexivity].
+      - destruct (d_get _ _); cbn; discriminate.
+      - destruct (d_get _ _); cbn; intros H; [discriminate|injection H as <-; reflexivity].
+      - cbn. discriminate.
+      - cbn. discriminate.
+      - cbn. discriminate.
+      - cbn. discriminate.
+    Qed.
+
+    Lemma map_history ops : forall s,
+      m_run_full s (m_filter s ops) =
+      let '(s1, xs, lg) := m_run_full s ops in (s1, filter (fun x => negb (m_rejected x)) xs, lg).
+    Proof.
+      induction ops as [|o r IH]; intros s; [reflexivity|].
+      cbn [MapHist.m_run_full MapHist.m_filter].
+      pose proof (map_no_trace s o) as NT.
+      destruct (m_step s o) as [[s1 x] l] eqn:E. cbn [fst snd] in NT.
+      specialize (IH s1). destruct (m_run_full s1 r) as [[s2 xs] lg].
+      cbn [filter]. destruct (m_rejected x) eqn:R; cbn [negb].
+      - destruct x; try discriminate R. destruct (NT _ eq_refl) as [-> ->]. rewrite IH. reflexivity.
+      - cbn [MapHist.m_run_full]. rewrite E, IH. reflexivity.
+    Qed.
+  End elems.
+End Mp.
+
+(* ====================================================================== *)
+(* 4. storage: the undefined identifier                                   *)
+(* ====================================================================== *)
+
+Module Sto.
+  Import Storage.
+
+  Lemma undefined_rejected s i v : is_undefined i = true ->
+    step s (SStore i v) = (s, OErrSlabID) /\ step s (SRemove i) = (s, OErrSlabID).
+  Proof. intros H. cbn [step]. rewrite H. auto. Qed.
+
+  Lemma defined_accepted s i v : is_undefined i = false ->
+    snd (step s (SStore i v)) = OOk /\ snd (step s (SRemove i)) = OOk.
+  Proof. intros H. cbn [step]. rewrite H. auto. Qed.
+
+  (* the slab-identifier error is raised for nothing else, and never changes the state *)
+  Lemma slabid_error_only_undefined s o : snd (step s o) = OErrSlabID ->
+    fst (step s o) = s /\ exists i, is_undefined i = true /\ (o = SRemove i \/ exists v, o = SStore i v).
+  Proof.
+    destruct o; cbn [step]; try (cbn; discriminate).
+    - destruct (is_undefined i) eqn:U; cbn; [|discriminate]. intros _. split; [reflexivity|]. exists i. eauto.
+    - destruct (is_undefined i) eqn:U; cbn; [|discriminate]. intros _. split; [reflexivity|]. exists i. eauto.
+    - destruct (retrieve s i). cbn. discriminate.
+    - destruct (retrieve_ignoring_deltas s i c). cbn. discriminate.
+    - destruct (fast_commit s fail) as [[? ?] ?]. cbn. discriminate.
+    - destruct (nondet_commit s order fail) as [[[? ?] ?]|]; cbn; discriminate.
+  Qed.
+End Sto.
